@@ -415,7 +415,56 @@ def r7(ctx):
         raise AnalysisBroken('C18.R7: receive call of Connection::run not recognised')
 
 
+def r8(ctx):
+    ctx.rule('C18.R8', 'a position searched in a request, URI or topic string is used on the same content: no path leads from '
+             'pos = s.find...() through a statement that replaces or shortens s to a use of pos as start of '
+             's.substr/at/erase/insert/replace or as subscript, unless pos is searched again (substr and at throw beyond the '
+             'end, which ends the daemon; a silent shift cuts the argument at the wrong place)', minimum=20)
+    import rules.common as common
+    common.stale_position_rule(ctx, 'C18.R8', lambda f: f.relfile.startswith(
+        ('src/ebusd/request.', 'src/ebusd/mainloop.', 'src/ebusd/mqtthandler.', 'src/lib/ebus/stringhelper.', 'src/ebusd/network.')), 20)
+
+
+def r9(ctx):
+    ctx.rule('C18.R9', 'hex arguments are taken byte-wise as the client wrote them: where MainLoop::parseHexMaster joins elements '
+             'of the argument vector into the string that is parsed as hex, every joined element was tested for an even '
+             'number of digits itself (a test on the joined string lets two odd arguments fuse into other bytes)', minimum=1)
+    import re
+    fb = ctx.fb
+    fn = fb.fn('ebusd::MainLoop::parseHexMaster')
+    ctx.touch(fn)
+    av = fn.P(0)
+    n = 0
+    for c in fn.all('CXXOperatorCallExpr'):
+        v = fn.nodes[c]
+        if v.get('op') != '<<' or len(v.get('args', [])) != 2:
+            continue
+        k = fn.key(v['args'][1])
+        m = re.match(r'^%s\[(\w+)(\+\+)?\]$' % re.escape(av), k)
+        el = None
+        if m:
+            el = '%s[%s]' % (av, m.group(1))
+        else:
+            # a reference local bound to an element of the argument vector
+            an = fn.nodes[fn.strip(v['args'][1], casts=True)]
+            if an.get('k') == 'DeclRefExpr' and an.get('rk') == 'local':
+                for nid, d, rhs, op, lhs in fn.assignments():
+                    if d == an.get('decl') and op == 'init' and rhs is not None and fn.key(rhs).startswith(av + '['):
+                        el = an.get('name')
+        if el is None:
+            continue
+        n += 1
+        want = [('((%s.%s() %% #2) == #0)' % (el, f), True) for f in ('length', 'size')] + \
+               [('((%s.%s() & #1) == #0)' % (el, f), True) for f in ('length', 'size')]
+        ok = fn.needs_one_of(c, want)
+        ctx.ob('C18.R9', fn, c, ok, 'argument joined into the hex string', 'even length of %s tested before: %s' % (el, ok))
+    if n < 1:
+        raise AnalysisBroken('C18.R9: no argument is joined into a stream in parseHexMaster')
+
+
 def run(ctx):
+    r9(ctx)
+    r8(ctx)
     r1(ctx)
     r2(ctx)
     r3(ctx)
@@ -423,3 +472,6 @@ def run(ctx):
     r5(ctx)
     r6(ctx)
     r7(ctx)
+    import rules.common as _common
+    ctx.rule('C18.R10', 'arguments keep their roles across calls: at every call of a repository function in the client-facing sources (what was parsed as circuit, name, field or data reaches the handler in that role) whose arguments are named like parameters of the callee, no two of them are passed crosswise (argument i named like parameter j and argument j like parameter i)', minimum=60)
+    _common.swapped_args_rule(ctx, 'C18.R10', ('src/ebusd/',), 60)
